@@ -271,12 +271,25 @@ def run_case(case):
                             r[k] = None
             cov['config']['concatenate/rows_with_all_mapped_cells_null'] = 1
             cfg['all_null_rows'] = True
+        sparse = not keyed and not shared_schema and boot.rng(case['seed'], 'C16', 'sparse', case['idx']).random() < 0.2
         tname = rng.choice(['concat', 'merged'])
         target = {'name': tname, 'path': tname + '.csv'} if rng.random() < 0.7 else {}
         if not target:
             tname = 'concat'
         steps = [d.concatenate(copy.deepcopy(mapping), target=copy.deepcopy(target),
                                resources=copy.deepcopy(selector))]
+        if sparse:
+            # the rows of one resource do not all have the same keys (a step in front dropped the null cells): a missing
+            # cell is a null cell
+            def drop_null_cells(rows):
+                for row in rows:
+                    if rows.res.name in sel:
+                        for k_ in [k_ for k_, v_ in row.items() if v_ is None and k_ != 'rid']:
+                            del row[k_]
+                    yield row
+            steps.insert(0, drop_null_cells)
+            cov['config']['concatenate/rows_with_differing_key_sets'] = 1
+            cfg['rows_with_differing_key_sets'] = True
         cfg.update({'selector': selector, 'mapping': mapping, 'target': target})
         cov['config']['concatenate/' + form + ('' if consecutive else '/nonconsecutive')] = 1
         if not consecutive:
@@ -410,10 +423,11 @@ def run_case(case):
             exp[src] = ('rows', [mut(r) for r in tables[src]], None)
             cfg['alias_mutator'] = kind
     elif fam == 'delete_resource':
-        form = rng.choice(['name', 'regex', 'list', 'int', 'all'])
+        form = rng.choice(['name', 'regex', 'list', 'int', 'all', 'empty_list'])
         selector = {'name': rng.choice(names), 'regex': 'r[%d-9]' % rng.randrange(nres),
                     'list': [n for n in names if rng.random() < 0.5] or [names[-1]],
-                    'int': rng.choice([0, -1]), 'all': None}[form]
+                    'int': rng.choice([0, -1]), 'all': None,
+                    'empty_list': []}[form]       # (a computed list of names that came out empty selects nothing)
         sel = refmodel.sel(selector, names)
         steps = [d.delete_resource(copy.deepcopy(selector))]
         exp_order = [n for n in names if n not in sel]
